@@ -5,9 +5,9 @@ from props import factor_common as fc
 
 PID = "C01"
 GEN = ["primality"]
-LEAN = ["Ymq.Props.C01"]
+LEAN = ["Ymq.Props.C01", "Ymq.Props.C01Closed"]
 AUDIT = "Ymq.Audit.C01"
-THEOREMS = ['Ymq.C01.factor_sound', 'Ymq.C01.factor_no_one', 'Ymq.C01.retain_residue_one', 'Ymq.C01.combineDiv_prod', 'Ymq.C01.combineDiv_no_panic', 'Ymq.C01.factorImpl_prod', 'Ymq.C01.factor_exact']
+THEOREMS = ['Ymq.C01.factor_sound', 'Ymq.C01.factor_no_one', 'Ymq.C01.retain_residue_one', 'Ymq.C01.combineDiv_prod', 'Ymq.C01.combineDiv_no_panic', 'Ymq.C01.factorImpl_prod', 'Ymq.C01.factor_exact', 'Ymq.C01.oracleOK_of_models', 'Ymq.C01.factor_exact_closed', 'Ymq.C01.factor_total_closed']
 PROFILES = ["release", "chk"]
 TIMEOUT = 120.0
 RULE = ("n = product of primes drawn from size classes (tiny..52 bit quick, ..90 bit thorough) in the shapes "
@@ -18,7 +18,7 @@ MODELLED = ["lib.rs factor / factor_impl / check_factors line by line (Ymq/Model
             "parameters (arbitrary in the theorems, the recorded trace of the real run in the replay)"]
 UNMODELLED = ["bnum Uint operators and num_integer::gcd are taken as Nat arithmetic (wrap modulo 2^1024 modelled in check_factors only)",
               "contracts of the sub-algorithms (every split multiplies to its argument) are hypotheses here, established under C11/C16"]
-HYPOTHESES = ['OracleOK (Lemmas/FactorOracle.lean): every split returned for m multiplies to m with parts < m; sieve divisors divide m (established for the real sub-algorithms under C11/C16)']
+HYPOTHESES = ["closed forms (C01Closed): OracleOK is derived for oracles that ARE the models of perfect_power (C08), final_step (C11), rho64 / P-1 result extraction / ECM exits (C16); residual: squfof's f < n, the UnexpectedFactor exit's d < n", 'OracleOK (Lemmas/FactorOracle.lean): every split returned for m multiplies to m with parts < m; sieve divisors divide m (established for the real sub-algorithms under C11/C16)']
 
 
 def prefs_tokens(rng):
